@@ -461,7 +461,7 @@ package smtp
 //@   ensures[C14:auth-message-plus] err == nil && a.isPlus ==> str(a.authMessage) == str(a.firstBareMsg) + "," + str(fromServer) + "," + ("c=" + str(a.bindData) + ",r=" + str(a.nonce))
 //@ func smtp.scramAuth.computeClientProof
 //@   requires[C14:wf] a != nil && a.h != nil
-//@   modifies[C14:frame] any.hdata, any.hkey, any.halg
+//@   modifies[C14:frame] any.hdata, any.hkey, any.halg, any.proof
 //@   loop 1 invariant[C14:frame] kept("A.byte") && freshslice(clientProof) && 0 <= i && len(clientProof) == len(clientSignature)
 
 // ---------------------------------------------------------------------------
@@ -475,3 +475,35 @@ package smtp
 //@ fn mailfmt(c *smtp.Client) string = ((c.ext != nil && ("DSN" in c.ext) && c.dsnmrtype != "") ? mailfmt2(c) + (" RET=" + c.dsnmrtype) : mailfmt2(c))
 //@ at smtp.Client.Mail smtp.Client.cmd#1 before assert[C04:parameters-only-when-advertised] arg2 == mailfmt(c)
 //@ at smtp.Client.Rcpt smtp.Client.cmd#2 before assert[C04:notify-only-with-dsn] c.ext != nil && ("DSN" in c.ext)
+
+// ---------------------------------------------------------------------------
+// C14 (continued): the SCRAM proofs follow RFC 5802 section 3 (over uninterpreted HMAC / H / Hi / base64)
+//
+//   ClientKey = HMAC(SaltedPassword, "Client Key")   StoredKey = H(ClientKey)
+//   ClientProof = ClientKey XOR HMAC(StoredKey, AuthMessage)     sent as base64
+//   ServerSignature = HMAC(HMAC(SaltedPassword, "Server Key"), AuthMessage)
+//@ fn clientkey(a *smtp.scramAuth) string = hmacval(str(a.saltedPwd), "Client Key")
+//@ fn clientsig(a *smtp.scramAuth) string = hmacval(hashval(clientkey(a)), str(a.authMessage))
+//@ ghost field proof string
+//@ at smtp.scramAuth.computeClientProof base64.Encoding.Encode#1 before ghost[C14:g] world.proof = str(clientProof)
+//@ func smtp.scramAuth.computeHMAC (key, msg) (r)
+//@   requires[C14:wf] a != nil
+//@   ensures[C14:hmac] str(r) == hmacval(old(str(key)), old(str(msg)))
+//@ func smtp.scramAuth.computeHash (key) (r)
+//@   requires[C14:wf] a != nil && a.h != nil
+//@   ensures[C14:hash] str(r) == hashval(old(str(key)))
+//@ func smtp.scramAuth.computeClientProof () (r)
+//@   ensures[C14:client-proof-encoded] str(r) == b64(world.proof)
+//@   ensures[C14:client-proof-is-key-xor-signature] len(world.proof) == len(clientsig(a)) && (forall i :: 0 <= i && i < len(clientsig(a)) && i < len(clientkey(a)) ==> world.proof[i] == bitxor(clientkey(a)[i], clientsig(a)[i]))
+//@   loop 1 invariant[C14:xor] i <= len(clientSignature) && str(clientKey) == clientkey(a) && str(clientSignature) == clientsig(a) && (forall j :: 0 <= j && j < i ==> clientProof[j] == bitxor(clientKey[j], clientSignature[j]))
+//@ func smtp.scramAuth.computeServerSignature () (r)
+//@   requires[C14:wf] a != nil && a.h != nil
+//@   ensures[C14:server-signature] str(r) == b64(hmacval(hmacval(str(a.saltedPwd), "Server Key"), str(a.authMessage)))
+//@ at smtp.scramAuth.computeClientProof base64.Encoding.Encode#1 before assert[C14:lemma-xor] forall i :: 0 <= i && i < len(clientProof) && i < len(clientKey) ==> str(clientProof)[i] == bitxor(clientkey(a)[i], clientsig(a)[i])
+//   SaltedPassword = Hi(Normalize(password), salt, i); client-final = client-final-without-proof ",p=" base64(ClientProof)
+//@ ghost field salt string
+//@ at smtp.scramAuth.handleServerFirstResponse pbkdf2.Key#1 before ghost[C14:g] world.salt = str(arg1)
+//@ func smtp.scramAuth.handleServerFirstResponse (fromServer) (resp, err)
+//@   ensures[C14:salted-password] err == nil ==> str(a.saltedPwd) == pbkdf2val(precis(a.password), world.salt, a.iterations)
+//@   ensures[C14:client-final] err == nil && !a.isPlus ==> str(resp) == ("c=biws,r=" + str(a.nonce)) + ",p=" + b64(world.proof)
+//@   ensures[C14:client-final-plus] err == nil && a.isPlus ==> str(resp) == ("c=" + str(a.bindData) + ",r=" + str(a.nonce)) + ",p=" + b64(world.proof)
